@@ -436,6 +436,42 @@ def make_cases(ctx, n_total):
         else:
             x, y = mix_systems(rng, x), mix_systems(rng, y)
         add('mixed', px, py, x, y)
+    # separate stream: a shared variable bound to a DEEP category of arbitrary shape (functor arguments inside the left spine,
+    # right-nested results, ...) with concrete features; the other side carries the same category with exactly ONE leaf feature
+    # changed (incompatible) - or none: every leaf position must be compared with its own counterpart
+    def deep_cat(system, depth):
+        if depth == 0 or rng.random() < 0.15:
+            if system == 'en':
+                return Atom(rng.choice(['S', 'N', 'NP', 'PP']), UnaryFeature(rng.choice(['dcl', 'b', 'em', 'ng', 'pss', 'thr', 'expl'])))
+            return Atom(rng.choice(['S', 'NP']), TernaryFeature(*rng.choice(gen.JA_FEATS[:1] + gen.JA_FEATS[2:5] + gen.JA_FEATS[6:7])))
+        return Functor(deep_cat(system, depth - 1), rng.choice(SL[:2]), deep_cat(system, depth - 1))
+
+    for _ in range(int(budget * 0.12)):
+        lang, px, py = rng.choice(gpairs)
+        ppx, ppy = Category.parse(px), Category.parse(py)
+        system = rng.choice(['en', 'ja'])
+        shared_vars = [v for v in pattern_names(ppx) if v in pattern_names(ppy)]
+        envx = {v: deep_cat(system, rng.choice([0, 1, 2])) for v in set(pattern_names(ppx) + pattern_names(ppy))}
+        if shared_vars:
+            v = rng.choice(shared_vars)
+            envx[v] = deep_cat(system, rng.choice([2, 3, 3, 4]))
+        envy = dict(envx)
+        kind = 'deep-same'
+        if shared_vars and rng.random() < 0.7:
+            c = envx[v]
+            atoms = [(pth, a) for pth, a in subterms(c) if isinstance(a, Atom)]
+            pth, a = rng.choice(atoms)
+            if system == 'en':
+                nf = UnaryFeature(rng.choice([f for f in ['dcl', 'b', 'em', 'ng', 'pss', 'thr', 'expl'] if f != a.feature.value]))
+            else:
+                nf = TernaryFeature(*rng.choice([f for f in gen.JA_FEATS[:1] + gen.JA_FEATS[2:5] + gen.JA_FEATS[6:7] if TernaryFeature(*f) != a.feature]))
+            envy[v] = replace_at(c, pth, Atom(a.base, nf))
+            kind = 'deep-one-leaf-clash'
+        try:
+            x, y = build(ppx, envx), build(ppy, envy)
+        except KeyError:
+            continue
+        add(f'{kind}:{system}', px, py, x, y)
     # separate stream: one variable feature meets several different values (which instantiation is kept must not
     # depend on the iteration order of a set)
     while len(cases) < budget:
